@@ -53,6 +53,16 @@ class Check:
             self.violation(rule, instance, site, detail, path)
         return cond
 
+    def shape(self, cond, rule, instance, site="", detail=""):
+        """A precondition of the RULE (not an obligation of the property): the code still has the shape the rule was written
+        for -- one dispatch site, three switches, a resolvable role.  When it holds it is recorded like an obligation; when it
+        does not, the rule cannot be applied and the analysis is broken (exit 2): never a violation, never a pass."""
+        if cond:
+            self.ok(rule, instance, site, detail)
+        else:
+            self.broken.append("rule %s cannot be applied: expected code shape `%s` not found (%s) %s" % (rule, instance, detail, site))
+        return cond
+
     def note(self, text):
         self.notes.append(text)
 
@@ -71,11 +81,13 @@ class Check:
     # -- finishing -----------------------------------------------------------
     def finish(self):
         wall = time.time() - self.t0
-        if self.broken:
+        if self.broken and not any(o["status"] == "violation" for o in self.obl):
             for b in self.broken:
                 print("ANALYSIS-BROKEN property=%s %s" % (self.pid, b))
             # no evidence is written for a broken analysis
             sys.exit(2)
+        for b in self.broken:   # violations found as well: they are reported (exit 1); the broken parts are listed too
+            print("ANALYSIS-BROKEN property=%s %s" % (self.pid, b))
         known_keys = {f["key"]: f for f in self.known.get("findings", []) if f["property"] == self.pid}
         viol = []
         known_hit = []
